@@ -207,6 +207,13 @@ def r4_task_side(chk: Check):
         chk.require(ok, chk.fkey(f, "marker read under the lock"),
                     "the success marker is read before the job lock is held: a second launch that waited for the lock would run the body again although the first launch succeeded",
                     chk.loc(f.module, guard.ast))
+    # the success marker is written while the job lock is still held: nothing releases the locks / runs the cleanup between the body and the marker
+    touch = [n for n, c in g.call_nodes(lambda c: tail(c) == "touch" and "donepath" in src(c.func))]
+    rel = [n for n, c in g.call_nodes(lambda c: src(c) in ("self.cleanup()",) or (tail(c) == "release" and "lock" in src(c.func).lower()))]
+    bad_rel = [r for r in rel if r.id in g.reachable(bn) and any(t.id in g.reachable(r) for t in touch)]
+    chk.require(bool(touch) and not bad_rel, chk.fkey(f, "marker before lock release"),
+                "the run locks are released (cleanup) before the success marker is written: a second launch blocked on the job lock acquires it in between, sees no marker, and runs the body again",
+                chk.loc(f.module, (bad_rel[0].ast if bad_rel else f.node)))
     # lock list of the generated script contains job.lockpath
     prep = tree.func("commandline", "CommandLineJob.prepare")
     ok = any(src(c) == "scriptbuilder.lockfiles.append(self.lockpath)" for c in fn_calls(prep.node))
